@@ -66,6 +66,24 @@ def gen(ctx):
             if i % 2 == 0 or thorough:
                 sample(scheme, "str", r.bytes(48), r.bytes(16), r.bytes(r.choice([0, 5, 64])), r.bytes(PT[(i // 2 + 3) % len(PT)]), 32, "len%s" % ("blk" if PT[(i // 2 + 3) % len(PT)] % 16 == 0 else "part"),
                        cellfor=lambda f, s=scheme: ("%s:nonce-not-authenticated" % s) if f == "nonce" else None)
+    # SM4-CBC+SM3-HMAC padding: MAC-valid streams whose CBC plaintext ends in a chosen last block.
+    # strict PKCS#7 (sm4_cbc_padding_decrypt since 75d04f0): a correct last byte with a wrong interior
+    # padding byte must be rejected; well-formed padding must be accepted
+    for i in range(24 if not thorough else 200):
+        nb = r.range(1, 3)
+        body = bytearray(r.bytes(16 * nb))
+        padlen = r.range(2, 16)
+        for j in range(padlen):
+            body[-1 - j] = padlen
+        good = i % 4 == 3
+        if not good:
+            pos = r.range(2, padlen)            # an interior padding byte (never the last one)
+            body[-pos] = padlen ^ (1 + r.below(255))
+        add("pad %s %s %s %s %s %d" % (r.bytes(48).hex(), r.bytes(16).hex(), hexs(r.bytes(r.choice([0, 5]))), bytes(body).hex(), pattern(r), 1 if good else 0),
+            "cbchmac:padding:%s" % ("wellformed" if good else "interior-byte-wrong"))
+    for lastbyte in (0, 17, 255):               # padding length out of range
+        body = bytearray(r.bytes(16)); body[-1] = lastbyte
+        add("pad %s %s - %s 7,40 0" % (r.bytes(48).hex(), r.bytes(16).hex(), bytes(body).hex()), "cbchmac:padding:length-out-of-range")
     # malformed op lines / unusable parameters: both sides must refuse
     add("nb sm4gcm one ok 00 %s - 00 16 -" % ("00" * 12), "sm4gcm:bad-key")
     add("nb sm4gcm one ok %s - - 00 16 -" % ("00" * 16), "sm4gcm:iv0")
@@ -79,6 +97,11 @@ def oracle(line, impl_out, spec_out):
     """property oracle: the untouched ciphertext must decrypt to the message; every modification must be rejected"""
     if impl_out.startswith("ERR") or impl_out.startswith("FAULT"):
         return None
+    if line.startswith("pad "):
+        want, v = line.split(" ")[-1], impl_out.split(" ")[-1]
+        if v == want:
+            return None
+        return "property violated: stream with %s CBC padding %s" % ("well-formed" if want == "1" else "malformed", "REJECTED" if v == "0" else "ACCEPTED")
     field = line.split(" ")[3]
     v = impl_out.split(" ")[-1]
     if field == "ok":
